@@ -12,6 +12,7 @@ import PxModel.DrvFirst
 import PxModel.DrvReverse
 import PxModel.DrvForward
 import PxModel.DrvConnect
+import PxModel.DrvIntercept
 /-
   Line protocol driver: one operation per input line, one canonical result
   line per input line.  First token selects the model.
@@ -35,6 +36,7 @@ def dispatch (line : String) : String :=
   | "fwd" :: args => Forward.drv args
   | "conn" :: args => Connect.drv args
   | "first" :: args => First.drv args
+  | "tls" :: args => Intercept.drv args
   | _ => "bad-op"
 
 partial def loop (h : IO.FS.Stream) (out : IO.FS.Stream) : IO Unit := do
